@@ -25,8 +25,8 @@ Proof. induction 1; simpl; intros; auto. destruct H0; auto. Qed.
 Lemma sublist_NoDup {X} (a b : list X) : sublist a b -> NoDup b -> NoDup a.
 Proof.
   induction 1; intro Hn; auto.
-  - inversion Hn; auto.
   - inversion Hn; subst. constructor; auto. intro Hi. apply H2. eapply sublist_In; eauto.
+  - inversion Hn; auto.
 Qed.
 
 Lemma sublist_map {X Y} (f : X -> Y) a b : sublist a b -> sublist (map f a) (map f b).
@@ -155,8 +155,8 @@ Section Proofs.
     unfold ante. rewrite run_chain_filter, H. unfold ante_core.
     destruct ms as [|m r]; [reflexivity|].
     cbn [run_chain run_dec]. destruct (sig_pass (m :: r)) as [fs|]; [|reflexivity].
-    cbn [a_from a_seq]. destruct (acc_pass fs (m :: r)); [|reflexivity].
-    destruct (inc_pass s fs (m :: r)); reflexivity.
+    cbn [run_chain run_dec a_from a_seq]. destruct (acc_pass fs (m :: r)); [|reflexivity].
+    cbn [run_chain run_dec a_from a_seq]. destruct (inc_pass s fs (m :: r)); reflexivity.
   Qed.
 
   (* ---------------------------------------------------------------- signature pass *)
@@ -236,7 +236,7 @@ Section Proofs.
       + destruct (sender_of m) as [a|] eqn:E; [|discriminate].
         destruct (N.eqb (m_nonce m) (s a)) eqn:En; [|discriminate]. apply N.eqb_eq in En.
         econstructor; eauto. apply IH. exact H.
-      + inversion H; subst. rewrite H3, H5, N.eqb_refl. apply IH. assumption.
+      + inversion H as [|s1 m1 a r1 s1' Hs Hn Hr]; subst. rewrite Hs, Hn, N.eqb_refl. apply IH. assumption.
   Qed.
 
   Lemma acc_pass_funded ms :
@@ -318,7 +318,7 @@ Section Proofs.
       inversion H; subst; destruct (IH _ _ _ _ Er) as [-> IHc]; (split; [reflexivity|]).
       + destruct (m_create m) eqn:Ec.
         * intros u k [Heq|Hin].
-          -- inversion Heq; subst. exists m. rewrite upd_same. auto 6.
+          -- inversion Heq; subst. exists m. rewrite upd_same. simpl. auto 8.
           -- destruct (IHc _ _ Hin) as [m' [? ?]]. exists m'; simpl; tauto.
         * intros u k Hin. destruct (IHc _ _ Hin) as [m' [? ?]]. exists m'; simpl; tauto.
       + intros u k Hin. destruct (IHc _ _ Hin) as [m' [? ?]]. exists m'; simpl; tauto.
@@ -401,7 +401,8 @@ Section Proofs.
     | t :: r => let '(s1, x) := deliver ds s t in (t, x, s1) :: trace ds s1 r
     end.
 
-  Definition final (s0 : state) (tr : list gstep) : state := last (map snd tr) s0.
+  Fixpoint final (s0 : state) (tr : list gstep) : state :=
+    match tr with [] => s0 | g :: r => final (snd g) r end.
 
   Lemma trace_run ds ts : forall s, map (fun g => snd (fst g)) (trace ds s ts) = snd (run chain recover ds s ts).
   Proof.
@@ -429,22 +430,20 @@ Section Proofs.
     final s (trace ds s ts) a = (s a + N.of_nat (length (proj a (acc_claims (trace ds s ts)))))%N.
   Proof.
     intros Hwf ts; induction ts as [|t r IH]; intros s a.
-    - simpl. unfold final. simpl. split; [reflexivity|lia].
+    - simpl. split; [reflexivity|lia].
     - cbn [trace]. destruct (deliver ds s t) as [s1 x] eqn:E.
       pose proof (deliver_step _ _ _ _ _ Hwf E) as [Hacc [Hrej _]].
       destruct (IH s1 a) as [IH1 IH2].
       unfold acc_claims. cbn [map concat fst snd]. fold (acc_claims (trace ds s1 r)).
       rewrite proj_app, app_length.
       assert (Hfin : final s ((t, x, s1) :: trace ds s1 r) a = final s1 (trace ds s1 r) a).
-      { unfold final. cbn [map snd]. destruct (map snd (trace ds s1 r)) eqn:Em; [reflexivity|].
-        cbn [last]. rewrite <- Em. clear. generalize (map snd (trace ds s1 r)). intro l.
-        destruct l; [reflexivity|]. reflexivity. }
+      { reflexivity. }
       rewrite Hfin, IH2.
       destruct (r_accepted x) eqn:Ex.
       + destruct (Hacc eq_refl) as [_ Hadv]. destruct (Hadv a) as [H1 H2].
         rewrite Nseq_app. rewrite <- H1. rewrite <- H2. rewrite <- IH1. split; [reflexivity|]. rewrite H2. lia.
-      + destruct (Hrej eq_refl) as [Hsame _]. rewrite Hsame in *. cbn [proj filter map length app].
-        unfold proj at 1 3 5. cbn. split; [exact IH1|lia].
+      + destruct (Hrej eq_refl) as [Hsame _]. change (proj a []) with (@nil N). cbn [app length Nat.add].
+        rewrite <- (Hsame a). split; [exact IH1|reflexivity].
   Qed.
 
   Lemma acc_claims_NoDup ds ts s : chain_wf ds = true -> NoDup (acc_claims (trace ds s ts)).
@@ -554,9 +553,9 @@ Section Proofs.
                m_nonce m = s a /\ s' = upd s a (N.succ (s a))).
   Proof.
     intro Hwf. rewrite (ante_wf _ _ _ Hwf), ante_core_iff. split.
-    - intros [_ [Hf Ha]]. inversion Ha; subst. inversion H5; subst.
-      destruct (sender_admissible _ _ H2) as [[_ Hc] Hr]. simpl in Hf. rewrite andb_true_r in Hf.
-      exists a. auto.
+    - intros [_ [Hf Ha]]. inversion Ha as [|s1 m1 a r1 s1' Hs Hn Hr]; subst. inversion Hr; subst.
+      destruct (sender_admissible _ _ Hs) as [[_ Hc] Hrec]. simpl in Hf. rewrite andb_true_r in Hf.
+      exists a. repeat split; auto.
     - intros [a [Hr [Hc [Hf [Hn ->]]]]].
       destruct (admissible_sender m) as [b [Hb Hb']]; [split; eauto|].
       assert (b = a) by congruence. subst b.
